@@ -1,12 +1,13 @@
 (* Raft/ProofsStore.v — RocksStorage: the cached first/last index equal the recomputed values after
    every operation, for all op sequences (the engine is modelled as an ordered map index -> entry). *)
-From Coq Require Import List NArith PeanoNat Bool Lia ZifyN ZifyNat ZifyBool.
+From Coq Require Import List NArith PeanoNat Bool Lia ZifyN ZifyNat ZifyBool Permutation.
 Import ListNotations.
 From ZV Require Import Raft.Consts Raft.Model Raft.Proofs Raft.ProofsLog.
 Open Scope N_scope.
 Arguments N.mul : simpl never.
 Arguments N.add : simpl never.
 Arguments N.sub : simpl never.
+Arguments N.div : simpl never.
 
 (* ====================================================================================== *)
 (* 8. RocksStorage: the cached first / last index always equal the recomputed values *)
@@ -369,3 +370,75 @@ Proof.
   - destruct (rs_first_index_inv _ Hinv) as (v & s1 & Hf & _ & Hr & _). eauto.
   - destruct (rs_last_index_inv _ Hinv) as (v & s1 & Hf & _ & Hr & _). eauto.
 Qed.
+
+(* ====================================================================================== *)
+(* 10. raft.maybeCommit's index selection: the chosen index is matched by a majority of the voters *)
+Fixpoint asc (l : list N) : Prop :=
+  match l with [] => True | x :: r => (forall y, In y r -> x <= y) /\ asc r end.
+
+Lemma insert_sorted_perm : forall x l, Permutation (x :: l) (insert_sorted x l).
+Proof.
+  induction l as [|y r IH]; simpl; [apply Permutation_refl|].
+  destruct (x <=? y); [apply Permutation_refl|].
+  eapply perm_trans; [apply perm_swap|]. apply perm_skip. exact IH.
+Qed.
+
+Lemma insert_sorted_asc : forall x l, asc l -> asc (insert_sorted x l).
+Proof.
+  induction l as [|y r IH]; intros H; simpl.
+  - split; [intros z []|exact I].
+  - destruct H as [H1 H2]. destruct (x <=? y) eqn:E.
+    + apply N.leb_le in E. simpl. split; [|split; assumption].
+      intros z [<-|Hz]; [exact E|]. pose proof (H1 z Hz). lia.
+    + apply N.leb_gt in E. simpl. split; [|apply IH; exact H2].
+      intros z Hz. apply (Permutation_in _ (Permutation_sym (insert_sorted_perm x r))) in Hz.
+      destruct Hz as [<-|Hz]; [lia|apply H1; exact Hz].
+Qed.
+
+Lemma sort_n_perm : forall l, Permutation l (sort_n l).
+Proof.
+  induction l as [|x r IH]; simpl; [constructor|].
+  eapply perm_trans; [apply perm_skip; exact IH|]. apply insert_sorted_perm.
+Qed.
+
+Lemma sort_n_asc : forall l, asc (sort_n l).
+Proof. induction l as [|x r IH]; simpl; [exact I|]. apply insert_sorted_asc. exact IH. Qed.
+
+Lemma filter_length_perm : forall (f : N -> bool) l l', Permutation l l' -> length (filter f l) = length (filter f l').
+Proof.
+  intros f l l' H. induction H; simpl; auto.
+  - destruct (f x); simpl; congruence.
+  - destruct (f x); destruct (f y); simpl; reflexivity.
+  - congruence.
+Qed.
+
+Lemma asc_tail_ge : forall s k c, asc s -> nth_error s k = Some c ->
+  (length s - k <= length (filter (fun m => N.leb c m) s))%nat.
+Proof.
+  induction s as [|x r IH]; intros k c H Hn; [destruct k; discriminate|].
+  destruct H as [H1 H2]. destruct k as [|k'].
+  - simpl in Hn. injection Hn as <-. simpl. rewrite N.leb_refl. simpl.
+    assert (Hall : filter (fun m => x <=? m) r = r).
+    { clear -H1. induction r as [|y r IH]; simpl; [reflexivity|].
+      replace (x <=? y) with true by (symmetry; apply N.leb_le; apply H1; left; reflexivity).
+      f_equal. apply IH. intros z Hz. apply H1. right. exact Hz. }
+    rewrite Hall. lia.
+  - simpl in Hn. pose proof (IH k' c H2 Hn) as G. simpl. destruct (c <=? x); simpl; lia.
+Qed.
+
+Theorem commit_index_has_quorum : forall ms c, commit_index ms = Some c ->
+  quorum (nlen ms) <= nlen (filter (fun m => c <=? m) ms) /\ In c ms.
+Proof.
+  intros ms c H. unfold commit_index, nnth in H.
+  pose proof (sort_n_perm ms) as Hp. pose proof (sort_n_asc ms) as Ha.
+  pose proof (asc_tail_ge _ _ _ Ha H) as G.
+  rewrite <- (filter_length_perm _ _ _ Hp) in G.
+  rewrite <- (Permutation_length Hp) in G.
+  split.
+  - assert (Hk : (N.to_nat (nlen ms - quorum (nlen ms)) < length (sort_n ms))%nat) by (apply nth_error_Some; congruence).
+    rewrite <- (Permutation_length Hp) in Hk.
+    unfold nlen in *. destruct ms as [|m0 mr]; [simpl in Hk; lia|].
+    pose proof (quorum_le (N.of_nat (length (m0 :: mr))) ltac:(simpl; lia)). lia.
+  - apply (Permutation_in _ (Permutation_sym Hp)). apply (nth_error_In _ _ H).
+Qed.
+
